@@ -19,10 +19,12 @@ void GraphData::release() noexcept {
   ClosureContext* closure = _closure.load(::std::memory_order_relaxed);
   do {
     if (ABSL_PREDICT_FALSE(closure == SEALED_CLOSURE)) {
+      BABYLON_VERIF_POINT("af:data_release_lost");
       return;
     }
   } while (ABSL_PREDICT_FALSE(!_closure.compare_exchange_weak(
       closure, SEALED_CLOSURE, ::std::memory_order_acq_rel)));
+  BABYLON_VERIF_POINT("af:data_release_sealed");
 
   if (ABSL_PREDICT_FALSE(nullptr != closure)) {
     closure->depend_data_sub();
